@@ -19,7 +19,8 @@ to the function `b`, `k` calls were made" (`Tally I R`); with `R := fun _ _ _ =>
   make exactly one call after the template's loop;
 * `optimize_two_steps`: a run of `optimize` that makes exactly two steps, unfolded;
 * `Newton1dExample`: the data of the run of `NewtonOneDimension` that exceeds its cap
-  (known finding C10-counter-undercount).
+  (known finding C10-counter-undercount), in exact `Rat` arithmetic (`check_true`, by the kernel);
+* `oneP_*`, `newtonCorrect_reject/accept`, `newton_step_one`, `Newton1dReal.run`: the same run over `ℝ`.
 -/
 set_option linter.unusedSectionVars false
 namespace Bpp.Optim
@@ -480,5 +481,250 @@ def check : Bool :=
 theorem check_true : check = true := by decide +kernel
 
 end Newton1dExample
+
+/-! ### the same run over `ℝ`
+
+The witness above is the program text at `Rat`; the theorems of `Props/C10Budget*.lean` are about the text
+at `ℝ`.  Here the same run is computed at `ℝ`, step by step: on a function of one variable and a list of one
+free parameter named 0 (`oneP x`), an evaluation, a restoration and a `setValue` are computed by `oneP_f`,
+`oneP_set`, `oneP_setValueAt`; `newtonCorrect_reject` / `newtonCorrect_accept` unfold one turn of the
+Felsenstein-Churchill loop; `newton_step_one` is the template's `step` (tolerance 0: the stop condition never
+fires). -/
+
+section one
+variable (obj : List ℝ → ℝ) (D : Deriv ℝ)
+
+/-- the list of one free parameter, named 0, holding `x` -/
+def oneP (x : ℝ) : PList ℝ := [⟨0, ⟨x, 0, none, false⟩⟩]
+
+theorem oneP_f (x y : ℝ) (log : List (List ℝ)) :
+    (Fn.iface obj D none).f ⟨[y], log⟩ (oneP x) = .ok (⟨[x], [x] :: log⟩, obj [x]) := by
+  by_cases h : x = y
+  · subst h; simp [Fn.iface, capped, Fn.f, Fn.setParameters, matchPoint, own, oneP]
+  · have : x - y ≠ 0 := sub_ne_zero.2 h
+    simp [Fn.iface, capped, Fn.f, Fn.setParameters, matchPoint, own, oneP, this]
+
+theorem oneP_set (x y : ℝ) (log : List (List ℝ)) :
+    (Fn.iface obj D none).setParameters ⟨[y], log⟩ (oneP x) = .ok ⟨[x], [x] :: log⟩ := by
+  by_cases h : x = y
+  · subst h; simp [Fn.iface, capped, Fn.setParameters, matchPoint, own, oneP]
+  · have : x - y ≠ 0 := sub_ne_zero.2 h
+    simp [Fn.iface, capped, Fn.setParameters, matchPoint, own, oneP, this]
+
+theorem oneP_get (y : ℝ) (log : List (List ℝ)) : (Fn.iface obj D none).getParameters ⟨[y], log⟩ = oneP y := by
+  simp [Fn.iface, Fn.params, oneP, List.range, List.range.loop]
+
+theorem oneP_setValueAt (x y : ℝ) : setValueAt (oneP y) 0 x = .ok (oneP x) := by
+  by_cases h : x = y
+  · subst h; simp [setValueAt, oneP, Param.setValue, Param.setValueBase]
+  · have : x - y ≠ 0 := sub_ne_zero.2 h
+    simp [setValueAt, oneP, Param.setValue, Param.setValueBase, Param.accepts, this]
+
+
+/-- a rejected trial: the previous point is restored (one call), the movement is halved, the function is
+evaluated there (one call) -/
+theorem newtonCorrect_reject (cur x0 m nv y z : ℝ) (maxc fuel count : Nat) (log : List (List ℝ))
+    (h : cur < nv) (hc : count + 1 < maxc) :
+    newtonCorrect (Fn.iface obj D none) cur x0 (oneP x0) maxc (fuel + 1) count ⟨[y], log⟩ (oneP z) m nv =
+    newtonCorrect (Fn.iface obj D none) cur x0 (oneP x0) maxc fuel (count + 1)
+      ⟨[x0 - m / 2], [x0 - m / 2] :: [x0] :: log⟩ (oneP (x0 - m / 2)) (m / 2) (obj [x0 - m / 2]) := by
+  rw [newtonCorrect]
+  rw [if_pos ((ScalarReal.gtb_iff _ _).2 h), oneP_set]
+  dsimp only
+  rw [if_neg (by omega)]
+  simp only [ScalarReal.ofInt_eq, Int.cast_ofNat]
+  rw [oneP_setValueAt]
+  dsimp only
+  rw [oneP_f]
+
+/-- an accepted trial -/
+theorem newtonCorrect_accept (cur x0 m nv : ℝ) (bck np : PList ℝ) (maxc fuel count : Nat) (fn : Fn ℝ) (h : nv ≤ cur) :
+    newtonCorrect (Fn.iface obj D none) cur x0 bck maxc (fuel + 1) count fn np m nv = .ok (fn, some (np, nv)) := by
+  rw [newtonCorrect]
+  rw [if_neg (fun c => absurd ((ScalarReal.gtb_iff _ _).1 c) (not_lt.2 h))]
+
+
+/-- the Newton movement at `x0` -/
+noncomputable def newtonMove (k : Nat) (x0 : ℝ) : ℝ :=
+  if D.d2 k [x0] ≤ 0 then -D.d1 k [x0] / D.d2 k [x0] else D.d1 k [x0] / D.d2 k [x0]
+
+theorem newtonDoStep_one (s : St (Fn ℝ) (Newton1 ℝ) ℝ) (x0 : ℝ) (log : List (List ℝ))
+    (hp : s.core.params = oneP x0) (hf : s.fn = ⟨[x0], log⟩) (fn : Fn ℝ) (pl : PList ℝ) (v : ℝ)
+    (hc : newtonCorrect (Fn.iface obj D none) s.core.cur x0 (oneP x0) s.ext.maxCorrection (s.ext.maxCorrection + 1) 0
+          ⟨[x0 - newtonMove D s.ext.param x0], [x0 - newtonMove D s.ext.param x0] :: log⟩
+          (oneP (x0 - newtonMove D s.ext.param x0)) (newtonMove D s.ext.param x0)
+          (obj [x0 - newtonMove D s.ext.param x0]) = .ok (fn, some (pl, v))) :
+    newtonDoStep (Fn.iface obj D none) s = .ok ({ s with fn := fn, core := { s.core with params := pl } }, v) := by
+  unfold newtonDoStep
+  dsimp only
+  have hv : value0 s.core.params = some x0 := by rw [hp]; rfl
+  have hd1 : (Fn.iface obj D none).d1 s.fn s.ext.param = D.d1 s.ext.param [x0] := by rw [hf]; rfl
+  have hd2 : (Fn.iface obj D none).d2 s.fn s.ext.param = D.d2 s.ext.param [x0] := by rw [hf]; rfl
+  have hm : (if (!Scalar.eqb (if Scalar.leb (D.d2 s.ext.param [x0]) Scalar.zero = true then -D.d1 s.ext.param [x0] / D.d2 s.ext.param [x0]
+        else D.d1 s.ext.param [x0] / D.d2 s.ext.param [x0]) (if Scalar.leb (D.d2 s.ext.param [x0]) Scalar.zero = true then -D.d1 s.ext.param [x0] / D.d2 s.ext.param [x0]
+        else D.d1 s.ext.param [x0] / D.d2 s.ext.param [x0])) = true then Scalar.zero else (if Scalar.leb (D.d2 s.ext.param [x0]) Scalar.zero = true then -D.d1 s.ext.param [x0] / D.d2 s.ext.param [x0]
+        else D.d1 s.ext.param [x0] / D.d2 s.ext.param [x0])) = newtonMove D s.ext.param x0 := by
+    unfold newtonMove
+    simp
+  rw [hv, hd1, hd2, hm]
+  dsimp only
+  rw [hp, oneP_setValueAt]
+  dsimp only
+  rw [hf, oneP_f, oneP_get]
+  dsimp only
+  rw [hc]
+
+
+/-- with tolerance 0 the `FunctionStopCondition` never reports that the tolerance is reached -/
+theorem fscStop_tol0 {τ : Type} (s : St (Fn ℝ) τ ℝ) (h0 : s.core.tolerance = 0) : (fscStop s).2 = false := by
+  unfold fscStop
+  dsimp only
+  split
+  · rfl
+  · rw [h0]
+    simp
+
+theorem fscStop_keeps_more {τ : Type} (s : St (Fn ℝ) τ ℝ) :
+    (fscStop s).1.core.params = s.core.params ∧ (fscStop s).1.core.cur = s.core.cur ∧ (fscStop s).1.ext = s.ext ∧
+    (fscStop s).1.core.tolerance = s.core.tolerance := by
+  unfold fscStop; dsimp only; split <;> exact ⟨rfl, rfl, rfl, rfl⟩
+
+/-- `step` computed forwards from `doStep`, for an optimiser whose stop condition is the
+`FunctionStopCondition`, with tolerance 0 -/
+theorem step_of_doStep_tol0 {τ : Type} (A : Algo (Fn ℝ) τ ℝ) (hstop : A.stop = fscStop) (s s1 : St (Fn ℝ) τ ℝ) (v : ℝ)
+    (hd : A.doStep s = .ok (s1, v)) (ht : s1.core.tol = false) (h0 : s1.core.tolerance = 0) :
+    ∃ sa, A.step s = .ok (sa, v) ∧ sa.fn = s1.fn ∧ sa.ext = s1.ext ∧ sa.core.params = s1.core.params ∧
+      sa.core.nbEval = s1.core.nbEval ∧ sa.core.nbEvalMax = s1.core.nbEvalMax ∧ sa.core.tol = false ∧
+      sa.core.tolerance = 0 ∧ sa.core.cur = v := by
+  have hex : ∃ sa, A.step s = .ok (sa, v) := by
+    unfold Algo.step
+    rw [hd]
+    dsimp only
+    split
+    · exact ⟨_, rfl⟩
+    · exact ⟨_, rfl⟩
+  obtain ⟨sa, hsa⟩ := hex
+  obtain ⟨s1', hd', hc⟩ := step_cases A s hsa
+  rw [hd] at hd'
+  simp only [Except.ok.injEq, Prod.mk.injEq, and_true] at hd'
+  subst hd'
+  rcases hc with ⟨htt, -⟩ | ⟨-, rfl⟩
+  · rw [ht] at htt; cases htt
+  · rw [hstop] at hsa
+    have hs := fscStop_keeps_more ({ s1 with core := { s1.core with cur := v } } : St (Fn ℝ) τ ℝ)
+    have hk := fscStop_keeps ({ s1 with core := { s1.core with cur := v } } : St (Fn ℝ) τ ℝ)
+    have h2 := fscStop_tol0 ({ s1 with core := { s1.core with cur := v } } : St (Fn ℝ) τ ℝ) h0
+    exact ⟨_, hsa, hk.1, hs.2.2.1, hs.1, hk.2.1, hk.2.2, h2, hs.2.2.2.trans h0, hs.2.1⟩
+
+/-- a step of `NewtonOneDimension` (template's `step`) on a one-parameter state, tolerance 0, when the
+correction loop ends on an accepted point -/
+theorem newton_step_one (s : St (Fn ℝ) (Newton1 ℝ) ℝ) (x0 : ℝ) (log : List (List ℝ))
+    (hp : s.core.params = oneP x0) (hf : s.fn = ⟨[x0], log⟩) (ht : s.core.tol = false) (h0 : s.core.tolerance = 0)
+    (fn : Fn ℝ) (pl : PList ℝ) (v : ℝ)
+    (hc : newtonCorrect (Fn.iface obj D none) s.core.cur x0 (oneP x0) s.ext.maxCorrection (s.ext.maxCorrection + 1) 0
+          ⟨[x0 - newtonMove D s.ext.param x0], [x0 - newtonMove D s.ext.param x0] :: log⟩
+          (oneP (x0 - newtonMove D s.ext.param x0)) (newtonMove D s.ext.param x0)
+          (obj [x0 - newtonMove D s.ext.param x0]) = .ok (fn, some (pl, v))) :
+    ∃ sa, (newtonAlgo (Fn.iface obj D none)).step s = .ok (sa, v) ∧ sa.fn = fn ∧ sa.ext = s.ext ∧ sa.core.params = pl ∧
+      sa.core.nbEval = s.core.nbEval ∧ sa.core.nbEvalMax = s.core.nbEvalMax ∧ sa.core.tol = false ∧
+      sa.core.tolerance = 0 ∧ sa.core.cur = v :=
+  step_of_doStep_tol0 (newtonAlgo (Fn.iface obj D none)) rfl s _ v (newtonDoStep_one obj D s x0 log hp hf fn pl v hc) ht h0
+
+end one
+
+namespace Newton1dReal
+
+noncomputable def objective (pt : List ℝ) : ℝ :=
+  (pt.getD 0 0 * pt.getD 0 0 - 1) * (pt.getD 0 0 * pt.getD 0 0 - 1)
+
+noncomputable def deriv : Deriv ℝ :=
+  { d1 := fun _ pt => 4 * pt.getD 0 0 * (pt.getD 0 0 * pt.getD 0 0 - 1),
+    d2 := fun _ pt => 12 * pt.getD 0 0 * pt.getD 0 0 - 4 }
+
+noncomputable def start : St (Fn ℝ) (Newton1 ℝ) ℝ :=
+  { core := freshCore 3 0 0, fn := ⟨[3 / 5], []⟩, ext := ⟨0, 10⟩ }
+
+noncomputable def algo : Algo (Fn ℝ) (Newton1 ℝ) ℝ := newtonAlgo (Fn.iface objective deriv none)
+
+theorem move1 : newtonMove deriv 0 (3 / 5) = -24 / 5 := by
+  unfold newtonMove deriv; norm_num
+
+theorem correct1 (log : List (List ℝ)) :
+    newtonCorrect (Fn.iface objective deriv none) (objective [3 / 5]) (3 / 5) (oneP (3 / 5)) 10 (10 + 1) 0
+      ⟨[3 / 5 - -24 / 5], [3 / 5 - -24 / 5] :: log⟩ (oneP (3 / 5 - -24 / 5)) (-24 / 5) (objective [3 / 5 - -24 / 5]) =
+    .ok (⟨[6 / 5], [6 / 5] :: [3 / 5] :: [9 / 5] :: [3 / 5] :: [3] :: [3 / 5] :: [27 / 5] :: log⟩,
+         some (oneP (6 / 5), objective [6 / 5])) := by
+  rw [newtonCorrect_reject (h := by norm_num [objective]) (hc := by norm_num)]
+  rw [show (3 / 5 - -24 / 5 / 2 : ℝ) = 3 by norm_num, show (-24 / 5 / 2 : ℝ) = -12 / 5 by norm_num,
+    show (3 / 5 - -24 / 5 : ℝ) = 27 / 5 by norm_num]
+  rw [newtonCorrect_reject (h := by norm_num [objective]) (hc := by norm_num)]
+  rw [show (3 / 5 - -12 / 5 / 2 : ℝ) = 9 / 5 by norm_num, show (-12 / 5 / 2 : ℝ) = -6 / 5 by norm_num]
+  rw [newtonCorrect_reject (h := by norm_num [objective]) (hc := by norm_num)]
+  rw [show (3 / 5 - -6 / 5 / 2 : ℝ) = 6 / 5 by norm_num, show (-6 / 5 / 2 : ℝ) = -3 / 5 by norm_num]
+  rw [newtonCorrect_accept (h := by norm_num [objective])]
+
+theorem move2 : newtonMove deriv 0 (6 / 5) = 66 / 415 := by
+  unfold newtonMove deriv; norm_num
+
+theorem correct2 (fn : Fn ℝ) (np : PList ℝ) :
+    newtonCorrect (Fn.iface objective deriv none) (objective [6 / 5]) (6 / 5) (oneP (6 / 5)) 10 (10 + 1) 0
+      fn np (66 / 415) (objective [6 / 5 - 66 / 415]) = .ok (fn, some (np, objective [6 / 5 - 66 / 415])) := by
+  rw [newtonCorrect_accept (h := by norm_num [objective])]
+
+theorem init_run : ∃ s, algo.init start (oneP (3 / 5)) = .ok s ∧ s.core.params = oneP (3 / 5) ∧
+    s.fn = ⟨[3 / 5], [[3 / 5]]⟩ ∧ s.core.cur = objective [3 / 5] ∧ s.core.nbEvalMax = 3 ∧ s.core.tolerance = 0 ∧
+    s.core.initialized = true ∧ s.ext = ⟨0, 10⟩ := by
+  simp [algo, Algo.init, newtonAlgo, newtonDoInit, start, freshCore, applyPolicy, oneP, Fn.iface, capped, Fn.f,
+    Fn.setParameters, matchPoint, own, fscInit, Fn.value]
+
+/-- the whole run: `init`, then `optimize` makes exactly two steps; when the second begins the counter shows
+2 and the log has 7 entries more than when `optimize` began -/
+theorem run : ∃ (s s1 sc : St (Fn ℝ) (Newton1 ℝ) ℝ) (w1 w2 : ℝ),
+    algo.init start (oneP (3 / 5)) = .ok s ∧ s.core.nbEvalMax = 3 ∧ s.fn.log = [[3 / 5]] ∧
+    algo.step { s with core := { s.core with tol := false, nbEval := 1 } } = .ok (s1, w1) ∧
+    Guard (bump s1) ∧ (bump s1).core.nbEval = 2 ∧ (bump s1).core.nbEvalMax = 3 ∧
+    (bump s1).fn.log = [[6 / 5], [3 / 5], [9 / 5], [3 / 5], [3], [3 / 5], [27 / 5], [3 / 5]] ∧
+    algo.step (bump s1) = .ok (sc, w2) ∧ ¬ Guard (bump sc) ∧ (bump sc).core.nbEval = 3 ∧
+    ∀ k, algo.optimize (k + 2) s = .ok (bump sc, (bump sc).core.cur) := by
+  obtain ⟨s, hinit, hp, hf, hcur, hmax, htol0, hi, hext⟩ := init_run
+  obtain ⟨s1, hst1, hfn1, hext1, hp1, hnb1, hmax1, htol1, htz1, hcur1⟩ :=
+    newton_step_one objective deriv { s with core := { s.core with tol := false, nbEval := 1 } } (3 / 5) [[3 / 5]] hp hf rfl htol0
+      _ _ _ (by
+        dsimp only
+        rw [hcur, hext]
+        dsimp only
+        rw [move1]
+        exact correct1 _)
+  have hnb1' : s1.core.nbEval = 1 := hnb1
+  have hext1' : s1.ext = ⟨0, 10⟩ := hext1.trans hext
+  have hmax1' : s1.core.nbEvalMax = 3 := hmax1.trans hmax
+  have hg1 : Guard (bump s1) := by
+    refine ⟨?_, htol1⟩
+    show s1.core.nbEval + 1 < s1.core.nbEvalMax
+    omega
+  obtain ⟨sc, hst2, hfn2, hext2, hp2, hnb2, hmax2, htol2, htz2, hcur2⟩ :=
+    newton_step_one objective deriv (bump s1) (6 / 5) _ hp1 hfn1 htol1 htz1
+      _ _ _ (by
+        dsimp only [bump]
+        rw [hcur1, hext1']
+        dsimp only
+        rw [move2]
+        exact correct2 _ _)
+  have hnb2' : sc.core.nbEval = 2 := by rw [hnb2]; show s1.core.nbEval + 1 = 2; omega
+  have hmax2' : sc.core.nbEvalMax = 3 := by rw [hmax2]; exact hmax1'
+  have hg2 : ¬ Guard (bump sc) := by
+    intro hg
+    have : sc.core.nbEval + 1 < sc.core.nbEvalMax := hg.1
+    omega
+  have hg0 : Guard ({ s with core := { s.core with tol := false, nbEval := 1 } } : St (Fn ℝ) (Newton1 ℝ) ℝ) := by
+    refine ⟨?_, rfl⟩
+    show 1 < s.core.nbEvalMax
+    omega
+  refine ⟨s, s1, sc, _, _, hinit, hmax, by rw [hf], hst1, hg1, by show s1.core.nbEval + 1 = 2; omega, hmax1', ?_, hst2, hg2,
+    by show sc.core.nbEval + 1 = 3; omega, fun k => optimize_two_steps algo s s1 sc _ _ hi hg0 hst1 hg1 hst2 hg2 k⟩
+  show s1.fn.log = _
+  rw [hfn1]
+
+end Newton1dReal
 
 end Bpp.Optim
